@@ -19,6 +19,7 @@ type sharedRule struct {
 
 var shared = map[string][]sharedRule{
 	"C01": {
+		{[]func(*core.Ctx){C17}, []string{"C17.R1"}, "C01.R14", 2, "two in-flight requests never share an op id (decided by C17.R1): the op-id counter is only touched by one atomic 64-bit add whose result is the id"},
 		{[]func(*core.Ctx){C09}, []string{"C09.R3"}, "C01.R12", 3, "the reply's _opid never reaches the caller's context (decided by C09.R3): a context that took over a reply's op id registers its next request under an id another call may hold"},
 		{[]func(*core.Ctx){C06}, []string{"C06.R1"}, "C01.R13", 3, "frames for unknown, late or duplicate op ids are dropped without waiting (decided by C06.R1): a blocking hand-over makes a duplicate response stall the delivery of every other caller's response"},
 	},
@@ -40,13 +41,23 @@ var shared = map[string][]sharedRule{
 		{[]func(*core.Ctx){C01}, []string{"C01.R1", "C01.R3"}, "C09.R13", 4, "a reply reaches the context that issued its request (decided by C01.R1/R3): frames are handed over only under their own _opid, so the response headers merged into a context are those of its own handler"},
 		{[]func(*core.Ctx){C03}, []string{"C03.R4", "C03.R5"}, "C09.R12", 6, "request and reply are complete messages in protocol order and an unknown method's arguments are consumed (decided by C03.R4/R5): the response header is read where it was written"},
 	},
+	"C02": {
+		{[]func(*core.Ctx){C10}, []string{"C10.R8"}, "C02.R18", 2, "a type is generated from the file that declares it (decided by C10.R8): the parse cache is keyed by the opened path and lives for one run"},
+	},
+	"C11": {
+		{[]func(*core.Ctx){C10}, []string{"C10.R8"}, "C11.R23", 2, "valid multi-file IDL is not rejected for a file it never included (decided by C10.R8): the parse cache is keyed by the opened path"},
+	},
 	"C12": {
 		{[]func(*core.Ctx){C02}, []string{"C02.R3"}, "C12.R15", 9, "a too-large error raised while a field is written reaches the client/processor as the transport exception it is (decided by C02.R3): every runtime field writer hands the protocol's error on through thrift.PrependError, which keeps its type"},
+	},
+	"C18": {
+		{[]func(*core.Ctx){C11}, []string{"C11.R20"}, "C18.R10", 1, "a breaking change in any audited file fails the run (decided by C11.R20): inside the loop over the command-line files the error of each Audit ends the process non-zero before the next file overwrites it"},
 	},
 	"C20": {
 		{[]func(*core.Ctx){C14}, []string{"C14.R1"}, "C20.R8", 7, "a worker never blocks for ever on the processor's write mutex (decided by C14.R1): held-at-call, released on every exit, never re-acquired by a callee — otherwise Serve's wg.Wait and Stop never return"},
 	},
 	"C07": {
+		{[]func(*core.Ctx){C08}, []string{"C08.R1"}, "C07.R18", 4, "a subscriber listens where the publisher of the same operation publishes (decided by C08.R1): publisher and subscriber topic expressions of a generator are the same function of prefix, scope, delimiter and operation"},
 		{[]func(*core.Ctx){C04}, []string{"C04.S6"}, "C07.R17", 4, "a published message is not discarded for its (valid) headers (decided by C04.S6): the pair decoder rejects only blocks whose next read would not fit"},
 	},
 	"C10": {
@@ -58,6 +69,7 @@ var shared = map[string][]sharedRule{
 		{[]func(*core.Ctx){C03, C16}, []string{"C03.R9", "C16.R6"}, "C14.R13", 2, "the reply is built from this invocation's own results (decided by C03.R9/C16.R6): the invocation handler behind every generated processor function keeps no storage across invocations, so two overlapping requests for one method cannot answer with each other's return value"},
 	},
 	"C16": {
+		{[]func(*core.Ctx){C12}, []string{"C12.R4"}, "C16.R13", 4, "the outcome the caller's middleware observes is the kind the server reported (decided by C12.R4): only the RESPONSE_TOO_LARGE application exception is turned into that transport exception"},
 		{[]func(*core.Ctx){C09}, []string{"C09.R3"}, "C16.R12", 3, "what a server middleware sets on the response headers is what the client middleware observes after next (decided by C09.R3): every reply header except _opid is merged into the caller's context whatever it already holds"},
 		{[]func(*core.Ctx){C03}, []string{"C03.R3"}, "C16.R10", 4, "the outcome of the call comes back through the middleware chain (decided by C03.R3): every declared exception is emitted on every non-oneway path of the generated client/processor"},
 		{[]func(*core.Ctx){C07}, []string{"C07.R4"}, "C16.R11", 1, "a failed handler invocation is observable as a failure (decided by C07.R4): the STOMP subscriber acknowledges only on the nil edge of the callback"},
